@@ -631,14 +631,10 @@ func RaceFailure(report string) *Failure {
 		l = strings.TrimSpace(l)
 		if strings.HasPrefix(l, "github.com/EliCDavis/polyform/") {
 			site = strings.TrimPrefix(l, "github.com/EliCDavis/polyform/")
-			if i := strings.Index(site, "("); i > 0 && !strings.HasPrefix(site[i:], "(*") {
-				site = site[:i]
-			}
-			if i := strings.LastIndex(site, ")"); i > 0 && strings.Contains(site, "(*") {
-				j := strings.Index(site[i:], "(")
-				if j > 0 {
-					site = site[:i+j]
-				}
+			site = strings.TrimSuffix(site, "()")
+			if i := strings.Index(site, "["); i > 0 { // generic instantiation: keep receiver and method only
+				method := site[strings.LastIndex(site, ".")+1:]
+				site = site[:i] + "[...])." + method
 			}
 			break
 		}
